@@ -26,6 +26,8 @@ func init() {
 		Run: runC07,
 	})
 	addMutants("C07",
+		mutant{"reservation skipped when the payload alone would fit", "codec/websocket/frame_codec.go",
+			"\t\tsrc.Reserve(payloadLength) // payload", "\t\tif payloadLength > src.Cap() {\n\t\t\tsrc.Reserve(payloadLength)\n\t\t} // payload", "C07-R2"},
 		mutant{"incomplete payload reserves half of it", "codec/websocket/frame_codec.go",
 			"\t\tsrc.Reserve(payloadLength) // payload", "\t\tsrc.Reserve(payloadLength / 2) // payload", "C07-R2"},
 		mutant{"negative 64-bit lengths pass", "codec/websocket/frame_codec.go",
@@ -400,6 +402,35 @@ func runC07(c *Ctx) {
 				return false
 			}
 			c.check(plen != nil && atLeast(arg, 0), dec, "reserve for the payload", rc.Pos(), "reserves at least the declared payload length", "an incomplete payload reserves less than the declared payload length: a frame larger than the remaining buffer space can never be completed (the next reads find no room)")
+			// ... unconditionally on the incomplete-payload path: the only condition between the failed PrepareRead and the
+			// reservation is that failure (a test such as `payload > Cap()` forgets the header bytes in front of the payload)
+			var prep ssa.CallInstruction
+			for _, pc := range pcallsAll(dec, prepareRead) {
+				if dominatesInstr(pc.(ssa.Instruction), rc.(ssa.Instruction)) {
+					prep = pc
+				}
+			}
+			uncond := false
+			if prep != nil {
+				base := map[ssa.Value]bool{}
+				for _, l := range guardsOf(prep.(ssa.Instruction).Block()) {
+					base[l.Cond] = true
+				}
+				extra := 0
+				okFail := false
+				for _, l := range guardsOf(rc.(ssa.Instruction).Block()) {
+					if base[l.Cond] {
+						continue
+					}
+					if x, eq, isNilT := l.nilTest(); isNilT && !eq && resolveCell(x) == prep.(ssa.Value) {
+						okFail = true
+						continue
+					}
+					extra++
+				}
+				uncond = okFail && extra == 0
+			}
+			c.check(uncond, dec, "reserve whenever incomplete", rc.Pos(), "every incomplete payload reserves room", "the reservation for an incomplete payload is skipped under an extra condition: a frame whose payload fits the buffer's capacity but not together with its header never completes - reads get a zero-length slice and Decode returns ErrNeedMore forever")
 		}
 	}
 
@@ -565,3 +596,5 @@ func checkLengthTables(c *Ctx, prop string) {
 		c.check(good, extBytes, "extended length bytes", extBytes.Pos(), fmt.Sprintf("%v", rows), fmt.Sprintf("ExtendedPayloadLengthBytes returns %v, expected 127->8, 126->2, otherwise 0", rows))
 	}
 }
+
+func pcallsAll(fn *ssa.Function, callee *ssa.Function) []ssa.CallInstruction { return callsToFn(fn, callee) }
